@@ -656,6 +656,26 @@ def _diverges(b):
     return t.get("k") in ("return", "continue", "break") or t.get("ty") == "!"
 
 
+def _same_pattern_shape(a, b):
+    """the two patterns match the same values (identical up to the names of their bindings)"""
+    ka, kb = a.get("k"), b.get("k")
+    if ka != kb:
+        return False
+    if ka in ("pwild",):
+        return True
+    if ka == "pbind":
+        return ("sub" in a) == ("sub" in b) and (("sub" not in a) or _same_pattern_shape(a["sub"], b["sub"]))
+    if ka in ("pref", "pderef"):
+        return _same_pattern_shape(a["pat"], b["pat"])
+    if ka == "pvariant":
+        return a["path"] == b["path"] and len(a["subs"]) == len(b["subs"]) and all(_same_pattern_shape(x, y) for x, y in zip(a["subs"], b["subs"]))
+    if ka == "ptuple":
+        return len(a["subs"]) == len(b["subs"]) and all(_same_pattern_shape(x, y) for x, y in zip(a["subs"], b["subs"]))
+    if ka == "plit":
+        return a.get("v") == b.get("v")
+    return False
+
+
 def path_conditions(ix, node, upto=None):
     """conditions known to hold when node executes, as [(expression, polarity)]: enclosing if branches and the negations of
     earlier diverging guards (`if c { continue }`, `if c { return .. }`) in the enclosing blocks, up to the node `upto` (default: function)."""
@@ -689,6 +709,16 @@ def path_conditions(ix, node, upto=None):
                 e = s_["e"] if s_.get("k") == "semi" else s_
                 if e.get("k") == "if" and "else" not in e and _diverges(e["then"]):
                     add(e["cond"], False)
+        elif k == "match":
+            # the guard of the arm taken holds; the guards of earlier arms with the same pattern do not
+            for i_, arm in enumerate(p["arms"]):
+                if arm["body"] is child or contains(arm["body"], node):
+                    if "guard" in arm:
+                        add(arm["guard"], True)
+                    for prev in p["arms"][:i_]:
+                        if "guard" in prev and _same_pattern_shape(prev["pat"], arm["pat"]):
+                            add(prev["guard"], False)
+                    break
         child = p
         p = ix.parent.get(id(p))
     return out
